@@ -206,6 +206,16 @@ func (p *Parser) ParseFile(filename string, varPool *VarPool) (*MetaData, []*Bui
 					return nil, nil, fmt.Errorf("injector name %s is already declared at %s", name, p.fset.Position(obj.Pos()))
 				}
 			}
+			// A name of a file's scope (the name of an import, an identifier of a dot import) cannot be
+			// declared at package level by another file either.
+			for _, f := range pkg.Syntax {
+				if f == nil || isKessokuGenerated(f) {
+					continue
+				}
+				if scope := pkg.TypesInfo.Scopes[f]; scope != nil && scope.Lookup(name) != nil {
+					return nil, nil, fmt.Errorf("injector name %s is already declared by an import of %s", name, p.fset.Position(f.Package).Filename)
+				}
+			}
 		}
 	}
 
